@@ -10,6 +10,7 @@ import time
 import voluptuous as vol
 
 from homeassistant.helpers import config_validation as cv
+from homeassistant.util import dt as dt_util
 
 from .. import trigger
 from ..decorator import WaitUntilDecoratorManager
@@ -130,7 +131,12 @@ class TimeTriggerDecorator(TriggerDecorator):
                 _LOGGER.debug("%s finish sleeping for %s seconds", self, timeout)
                 while True:
                     now = dt_now()
-                    timeout = (time_next_adj - now).total_seconds()
+                    if now >= time_next:
+                        break
+                    timeout = (
+                        dt_util.as_local(time_next).astimezone(dt_util.UTC)
+                        - dt_util.as_local(now).astimezone(dt_util.UTC)
+                    ).total_seconds()
                     if timeout <= 1e-6:
                         break
                     _LOGGER.debug("%s additional sleep for %s seconds", self, timeout)
